@@ -135,6 +135,19 @@ CLAIMS['C15'] = dict(
     note='Trusted: CPython ast; references coded in sa/props/c15.py from the ARM ARM; stage 2 and big-endian descriptor '
          'fetch not in play; hub / translation results symbolic.')
 
+CLAIMS['C17'] = dict(
+    category='other', design_ref='DESIGN.md section 4 (C17)',
+    technique='bit-vector abstract interpretation of every register-view getter/setter and of the wiring helpers for all '
+              'constant positions, decision tables of DecodeImmShift/DecodeRegShift/Shift_C dispatch, argument wiring of the '
+              'expand-immediate helpers, AST who-calls rule for the shifter operand width',
+    text='Second sentence of the property decided completely: every named field of every register view reads and writes '
+         'exactly its architectural bits (190 fields, 38 classes, indexed accessors for every index) and a field write changes '
+         'no other bit. Of the first sentence only the wiring/table part is decided (slices, insertions, concatenation, '
+         'sign extension, byte reversal, RRX, immediate-shift decoding, Shift_C dispatch, expand-immediate wiring, operand '
+         'width); the numeric results of AddWithCarry, variable-amount shifts, saturation and bit counts are arithmetic over '
+         'run-time values and are declared undecided - no sound static argument in reach.',
+    note='Trusted: CPython ast; spec/regfields.json (audited against the manual; one deviation corrected); sa/bitdom.py.')
+
 PENDING = 'checker not armed yet in this session (under construction); nothing is claimed for it until its rules run clean'
 
 checks = []
